@@ -71,14 +71,19 @@ func engDec(a []string) string {
 	}
 	switch a[0] {
 	case "new":
-		if len(a) != 2 {
+		// dec new <mode> [tcp|udp]: the transport the collector is configured for (default tcp). Over udp the
+		// templates get a lifetime (30 min by default: no timer fires within a case); decoding is the same.
+		proto := "tcp"
+		if len(a) == 3 && (a[2] == "udp" || a[2] == "tcp") {
+			proto = a[2]
+		} else if len(a) != 2 {
 			return "bad-op"
 		}
 		mode, ok := modeOf(a[1])
 		if !ok {
 			return "bad-op"
 		}
-		cp, err := collector.VerifNewCollector(collector.CollectorInput{Protocol: "tcp", MaxBufferSize: 65535, DecodingMode: mode}, nil)
+		cp, err := collector.VerifNewCollector(collector.CollectorInput{Protocol: proto, MaxBufferSize: 65535, DecodingMode: mode}, nil)
 		if err != nil {
 			return "bad-op"
 		}
